@@ -896,6 +896,10 @@ func (env *SpecEnv) callExpr(c *ast.CallExpr) (*Val, error) {
 			return boolVal(sx(">", sx("sarr", a.T), env.vc().heap(env.old, "$alloc", SInt))), nil
 		}
 		return boolVal(sx(">", a.T, env.vc().heap(env.old, "$alloc", SInt))), nil
+	case "allocmark":
+		// the allocation high-water mark of the current state: references are handed out in
+		// increasing order, so `x > m` for a mark m taken earlier says x was allocated after that point
+		return mathInt(env.heap("$alloc", SInt)), nil
 	case "allocated":
 		a, err := arg(0)
 		if err != nil {
